@@ -276,10 +276,6 @@ fn run_inner<F: Flavour>(
                     format!("{when}: the value of node {k} has been released although {} handle(s) to it are still held", held[&k]),
                 ));
             }
-            if live > 1 {
-                // node values are never cloned by these workloads
-                return Some(Violation::new("leak", format!("{when}: node {k}'s value has {live} live instances")));
-            }
         }
         // held handles stay usable
         for s in slots.iter().flatten() {
